@@ -10,6 +10,8 @@ import Gmars.Proofs.AsmCompose
 import Gmars.Proofs.AsmEqu
 import Gmars.Proofs.AsmComposeForBytes
 import Gmars.Proofs.AsmComposeEquCase
+import Gmars.Proofs.AsmTailCompose
+import Gmars.Proofs.AsmTailExample
 import Gmars.Proofs.AsmComposeEquExample
 import Gmars.Proofs.AsmComposeForExample
 
@@ -160,6 +162,30 @@ theorem assemble_meaning_anycase (cfg : Config) (sc : Spec.Cfg) (p q : EProg) (d
   AsmComposeEqu.assemble_meaning_anycase cfg sc p q d hpq hv h63 hr hlex hnames hplain hnd hcl hsmall hrk hlt hw
     ls hls hsame src hsrc
 
+open AsmTail AsmComposeEqu AsmCompose AsmLine Render in
+/-- `assemble_meaning_equ_tail` — as `assemble_meaning_equ`, for programs whose END line carries
+    labels (`last end first`): such a label denotes the address just after the code; the whole
+    assembler, from bytes and for every spacing, returns the reference meaning
+    `Spec.meaningFlatT` (which is `meaningFlat` with those labels added to the label table:
+    `Spec.meaningFlatT_nil`). -/
+theorem assemble_meaning_equ_tail (cfg : Config) (sc : Spec.Cfg) (p : TProg) (d : String → Nat)
+    (hv : cfg.validate = true) (h63 : cfg.coreSize.toNat < 2 ^ 63) (hr : CfgRel cfg sc)
+    (hlex : p.LexOK) (hnames : p.base.NamesOK) (htn : ∀ l ∈ p.tail, IsLabelName l)
+    (hplain : ∀ cs k, EItem.comment cs k ∈ p.items → plainComment cs)
+    (hnd : (p.labels ++ p.tail ++ p.equNames ++ constNames).Nodup)
+    (hcl : ∀ x ∈ p.names, x ∈ p.labels ∨ x ∈ p.tail ∨ x ∈ p.equNames ∨ x ∈ constNames)
+    (hsmall : xinstrCount p.body < 2 ^ 63)
+    (hrk : ERanked (xequs p.body ++ Spec.predefined sc) d) (hlt : ∀ s, d s < 63)
+    (hw : XProgWF lexString sc (xtablesT sc p.body p.kw p.e p.tail) 0 p.xitems)
+    (ls : List SrcLine) (hls : ∀ l ∈ ls, l.ok (some '\n') = true) (hsame : SameLines ls p.srcLines)
+    (src : List UInt8) (hsrc : decodeRunes src = renderLines ls) :
+    assemble cfg src =
+      match Spec.meaningFlatT sc (p.xitems.map AsmLine.XItem.toItem) p.tail with
+      | some m => .ok (toWD p.meta m)
+      | none => .err :=
+  AsmTail.assemble_meaning_equ_tail cfg sc p d hv h63 hr hlex hnames htn hplain hnd hcl hsmall hrk hlt hw
+    ls hls hsame src hsrc
+
 open AsmComposeFor AsmCompose AsmLine Render in
 /-- `assemble_meaning_for` — the whole assembler FROM BYTES on programs with FOR/ROF blocks:
     `fp` is any program of label-free instructions and FOR blocks, sequential and nested to any
@@ -186,7 +212,7 @@ theorem assemble_meaning_for (cfg : Config) (sc : Spec.Cfg) (fp : FProg)
   Still open: one statement that has labels/EQUs AND FOR blocks in the SAME program
   (`assemble_meaning_equ`: labels + EQU + asserts from bytes, any spacing, any mnemonic case;
   `assemble_meaning_for`: label-free FOR blocks from bytes); comparison operators inside
-  operands; EQU names with a colon. The whole statement is checked by the asm94/asm88 domains
+  operands; EQU names and END-line labels with a colon. The whole statement is checked by the asm94/asm88 domains
   on 15 000 renderings per run.
 -/
 
